@@ -77,7 +77,28 @@ def run_case(case, work, rec):
     rng.shuffle(cands)
     # prefer a spread over levels
     cands.sort(key=lambda c: -c[0] if rng.random() < 0.5 else 0)
-    for lv, bi, ijk in cands[:case["npts"]]:
+    # ... and cells 1, 3, 7 cells away from each low and each high face of every box that is wide enough
+    # (still interior cell centres: at least one cell from every face), whatever the box size
+    near = []
+    cset = None
+    for lv in range(m.nlevels):
+        for bi, b in enumerate(m.boxes[lv]):
+            if min(b.shape) < 3:
+                continue
+            mid = [s // 2 for s in b.shape]
+            for d in range(3):
+                for k in (1, 3, 7):
+                    for side in (0, 1):
+                        if k >= b.shape[d] - 1:
+                            continue
+                        ijk = list(mid); ijk[d] = k if side == 0 else b.shape[d] - 1 - k
+                        near.append((lv, bi, tuple(ijk)))
+    if near:
+        cset = set(cands)
+        near = [c for c in near if c in cset]
+        rng.shuffle(near)
+    picked = near[:max(6, case["npts"] // 3)] + cands[:case["npts"]]
+    for lv, bi, ijk in picked:
         b = m.boxes[lv][bi]
         pt = [m.geo_low[d] + (b.lo[d] + ijk[d] + 0.5) * m.dx[lv][d] for d in range(3)]
         arr = m.data[lv][bi]
